@@ -71,6 +71,180 @@ func getDescriptorFunc(ctx context.Context, reader io.Reader, contentMediaType s
 	return describer.describe
 }
 """
+# ---- second pass: building blocks ----
+_EXPIRYOF = 'func expiryOf(signingTime time.Time, expiryDuration time.Duration) time.Time {\n\tif expiryDuration == 0 {\n\t\treturn time.Time{}\n\t}\n\treturn signingTime.Add(expiryDuration)\n}\n\n'
+def _EXPIRY_HELPER(helper=_EXPIRYOF, call='expiryOf(signingTime, opts.ExpiryDuration)'):
+    """the request literal carries SigningTime: signingTime, Expiry: <call>; nothing is patched afterwards"""
+    return [(S, _REQ, '\tsigningTime := time.Now()\n' + _REQ),
+            (S, _NOW, '\t\tSigningTime:            signingTime,\n\t\tExpiry:                 %s,\n' % call),
+            (S, _PATCH_EXPIRY, ''), (S, _GETDESC, helper + _GETDESC)]
+def _EXPIRY_PATCH(stmt, helper):
+    """the request is built as in the base tree and patched by <stmt>"""
+    return [(S, _PATCH_EXPIRY, stmt), (S, _GETDESC, helper + _GETDESC)]
+_SETTER = 'func setExpiry(req *signature.SignRequest, d time.Duration) {\n\tif d != 0 {\n\t\treq.Expiry = req.SigningTime.Add(d)\n\t}\n}\n\n'
+_SETTER_BARE = 'func setExpiry(req *signature.SignRequest, d time.Duration) {\n\treq.Expiry = req.SigningTime.Add(d)\n}\n\n'
+_EXPIRYFOR = 'func expiryFor(req *signature.SignRequest, d time.Duration) time.Time {\n\tif d == 0 {\n\t\treturn time.Time{}\n\t}\n\treturn req.SigningTime.Add(d)\n}\n\n'
+_EXPIRY_VARIANTS = [
+ dict(name='benign-expiry-helper', expect='silent', edits=_EXPIRY_HELPER()),
+ dict(name='benign-expiry-helper-takes-options', expect='silent', edits=_EXPIRY_HELPER(
+      helper='func expiryOf(signingTime time.Time, o notation.SignerSignOptions) time.Time {\n\tif o.ExpiryDuration == 0 {\n\t\treturn time.Time{}\n\t}\n\treturn signingTime.Add(o.ExpiryDuration)\n}\n\n',
+      call='expiryOf(signingTime, opts)')),
+ dict(name='benign-expiry-helper-swapped-named-result', expect='silent', edits=_EXPIRY_HELPER(
+      helper='func expiryOf(d time.Duration, t time.Time) (expiry time.Time) {\n\tif d != 0 {\n\t\texpiry = t.Add(d)\n\t}\n\treturn\n}\n\n',
+      call='expiryOf(opts.ExpiryDuration, signingTime)')),
+ dict(name='benign-expiry-caller-tests-helper-adds', expect='silent', edits=_EXPIRY_PATCH(
+      '\tif opts.ExpiryDuration != 0 {\n\t\tsignReq.Expiry = expiryAfter(signReq.SigningTime, opts.ExpiryDuration)\n\t}\n',
+      'func expiryAfter(t time.Time, d time.Duration) time.Time {\n\treturn t.Add(d)\n}\n\n')),
+ dict(name='benign-expiry-setter-helper', expect='silent', edits=_EXPIRY_PATCH('\tsetExpiry(signReq, opts.ExpiryDuration)\n', _SETTER)),
+ dict(name='benign-expiry-setter-called-under-test', expect='silent', edits=_EXPIRY_PATCH(
+      '\tif opts.ExpiryDuration != 0 {\n\t\tsetExpiry(signReq, opts.ExpiryDuration)\n\t}\n', _SETTER_BARE)),
+ dict(name='benign-expiry-helper-reads-request', expect='silent', edits=_EXPIRY_PATCH('\tsignReq.Expiry = expiryFor(signReq, opts.ExpiryDuration)\n', _EXPIRYFOR)),
+ dict(name='expiry-helper-unguarded', expect='flagged(payload/expiry)', edits=_EXPIRY_HELPER(
+      helper='func expiryOf(signingTime time.Time, expiryDuration time.Duration) time.Time {\n\treturn signingTime.Add(expiryDuration)\n}\n\n')),
+ dict(name='expiry-helper-other-clock', expect='flagged(payload/expiry)', edits=_EXPIRY_HELPER(call='expiryOf(time.Now(), opts.ExpiryDuration)')),
+ dict(name='expiry-helper-other-duration', expect='flagged(payload/expiry)', edits=_EXPIRY_HELPER(call='expiryOf(signingTime, opts.ExpiryDuration+time.Hour)')),
+ dict(name='expiry-helper-default-when-none-requested', expect='flagged(payload/expiry)', edits=_EXPIRY_HELPER(
+      helper=_EXPIRYOF.replace('return time.Time{}', 'return signingTime.Add(24 * time.Hour)'))),
+ dict(name='expiry-helper-test-inverted', expect='flagged(payload/expiry)', edits=_EXPIRY_HELPER(
+      helper=_EXPIRYOF.replace('expiryDuration == 0', 'expiryDuration != 0'))),
+ dict(name='expiry-helper-tests-other-parameter', expect='flagged(payload/expiry)', edits=_EXPIRY_HELPER(
+      helper='func expiryOf(signingTime time.Time, expiryDuration, grace time.Duration) time.Time {\n\tif grace == 0 {\n\t\treturn time.Time{}\n\t}\n\treturn signingTime.Add(expiryDuration)\n}\n\n',
+      call='expiryOf(signingTime, opts.ExpiryDuration, time.Minute)')),
+ dict(name='expiry-setter-unguarded', expect='flagged(payload/expiry)', edits=_EXPIRY_PATCH('\tsetExpiry(signReq, opts.ExpiryDuration)\n', _SETTER_BARE)),
+ dict(name='expiry-setter-second-call-other-duration', expect='flagged(payload/expiry)', edits=_EXPIRY_PATCH(
+      '\tsetExpiry(signReq, 24*time.Hour)\n\tsetExpiry(signReq, opts.ExpiryDuration)\n', _SETTER)),
+ dict(name='expiry-helper-reads-other-request', expect='flagged(payload/expiry)', edits=_EXPIRY_PATCH(
+      '\tsignReq.Expiry = expiryFor(&signature.SignRequest{SigningTime: time.Now()}, opts.ExpiryDuration)\n', _EXPIRYFOR)),
+]
+
+# (8) CLASS "result object built by a constructor function": the sign request / plugin request is filled by a constructor
+_REQ_LIT = ('\tsignReq := &signature.SignRequest{\n\t\tPayload: signature.Payload{\n\t\t\tContentType: envelope.MediaTypePayloadV1,\n\t\t\tContent:     payloadBytes,\n\t\t},\n'
+            '\t\tSigner:                 s.signer,\n\t\tSigningTime:            time.Now(),\n\t\tSigningScheme:          signature.SigningSchemeX509,\n\t\tSigningAgent:           signingAgentId,\n'
+            '\t\tTimestamper:            opts.Timestamper,\n\t\tTSARootCAs:             opts.TSARootCAs,\n\t\tTSARevocationValidator: opts.TSARevocationValidator,\n\t}\n')
+_REQ_ALL = _REQ_LIT + '\n\t// Add expiry only if ExpiryDuration is not zero\n' + _PATCH_EXPIRY
+_REQ_CTOR = ('func newSignRequest(signer signature.Signer, content []byte, agent string, opts notation.SignerSignOptions) *signature.SignRequest {\n'
+             + _REQ_LIT.replace('payloadBytes', 'content').replace('s.signer', 'signer').replace('signingAgentId', 'agent')
+             + _PATCH_EXPIRY + '\treturn signReq\n}\n\n')
+def _REQUEST_CTOR(ctor=_REQ_CTOR, call='newSignRequest(s.signer, payloadBytes, signingAgentId, opts)'):
+    return [(S, _REQ_ALL, '\tsignReq := %s\n' % call), (S, _GETDESC, ctor + _GETDESC)]
+_PREQ = ('\treq := &plugin.GenerateEnvelopeRequest{\n\t\tContractVersion:         plugin.ContractVersion,\n\t\tKeyID:                   s.keyID,\n\t\tPayload:                 payloadBytes,\n'
+         '\t\tSignatureEnvelopeType:   opts.SignatureMediaType,\n\t\tPayloadType:             envelope.MediaTypePayloadV1,\n\t\tExpiryDurationInSeconds: uint64(opts.ExpiryDuration / time.Second),\n'
+         '\t\tPluginConfig:            s.mergeConfig(opts.PluginConfig),\n\t}\n')
+_PREQ_CTOR = ('func newEnvelopeRequest(keyID string, payload []byte, envelopeType string, expirySeconds uint64, config map[string]string) *plugin.GenerateEnvelopeRequest {\n'
+              '\treturn &plugin.GenerateEnvelopeRequest{\n\t\tContractVersion:         plugin.ContractVersion,\n\t\tKeyID:                   keyID,\n\t\tPayload:                 payload,\n'
+              '\t\tSignatureEnvelopeType:   envelopeType,\n\t\tPayloadType:             envelope.MediaTypePayloadV1,\n\t\tExpiryDurationInSeconds: expirySeconds,\n\t\tPluginConfig:            config,\n\t}\n}\n\n')
+_PGETKS = 'func (s *PluginSigner) getKeySpec('
+def _PLUGIN_CTOR(ctor=_PREQ_CTOR, secs='uint64(opts.ExpiryDuration / time.Second)', payload='payloadBytes'):
+    return [(SP, _PREQ, '\treq := newEnvelopeRequest(s.keyID, %s, opts.SignatureMediaType, %s, s.mergeConfig(opts.PluginConfig))\n' % (payload, secs)),
+            (SP, _PGETKS, ctor + _PGETKS)]
+_CTOR_VARIANTS = [
+ dict(name='benign-request-constructor', expect='silent', edits=_REQUEST_CTOR()),
+ dict(name='request-constructor-stores-other-bytes', expect='flagged(payload/bytes-signed)', edits=_REQUEST_CTOR(
+      ctor=_REQ_CTOR.replace('Content:     content,', 'Content:     append([]byte(nil), content[:len(content)/2]...),'))),
+ dict(name='request-constructor-other-content-type', expect='flagged(payload/content-type-written)', edits=_REQUEST_CTOR(
+      ctor=_REQ_CTOR.replace('ContentType: envelope.MediaTypePayloadV1,', 'ContentType: "application/vnd.cncf.notary.payload.v2+json",'))),
+ dict(name='request-constructor-expiry-unguarded', expect='flagged(payload/expiry)', edits=_REQUEST_CTOR(
+      ctor=_REQ_CTOR.replace(_PATCH_EXPIRY, '\tsignReq.Expiry = signReq.SigningTime.Add(opts.ExpiryDuration)\n'))),
+ dict(name='request-constructor-given-other-bytes', expect='flagged(payload/bytes-signed)', edits=_REQUEST_CTOR(
+      call='newSignRequest(s.signer, payloadBytes[:len(payloadBytes)/2], signingAgentId, opts)')),
+ dict(name='benign-plugin-request-constructor', expect='silent', edits=_PLUGIN_CTOR()),
+ dict(name='plugin-request-constructor-caller-passes-milliseconds', expect='flagged(payload/expiry-plugin)', edits=_PLUGIN_CTOR(
+      secs='uint64(opts.ExpiryDuration / time.Millisecond)')),
+ dict(name='plugin-request-constructor-ignores-expiry', expect='flagged(payload/expiry-plugin)', edits=_PLUGIN_CTOR(
+      ctor=_PREQ_CTOR.replace('ExpiryDurationInSeconds: expirySeconds,', 'ExpiryDurationInSeconds: expirySeconds / 60,'))),
+ dict(name='plugin-request-constructor-other-payload-type', expect='flagged(payload/content-type-written)', edits=_PLUGIN_CTOR(
+      ctor=_PREQ_CTOR.replace('PayloadType:             envelope.MediaTypePayloadV1,', 'PayloadType:             "application/json",'))),
+ dict(name='expiry-read-from-other-request-in-same-function', file=S, expect='flagged(payload/expiry)', find=_PATCH_EXPIRY,
+      replace='\tother := &signature.SignRequest{SigningTime: time.Now().Add(time.Hour)}\n\tif opts.ExpiryDuration != 0 {\n\t\tsignReq.Expiry = other.SigningTime.Add(opts.ExpiryDuration)\n\t}\n'),
+]
+
+# (6) CLASS "single exit with a local / value computed by a helper" for the two read-back clauses
+_UM = '\tif payload.TargetArtifact.Annotations == nil {\n\t\treturn map[string]string{}, nil\n\t}\n\treturn payload.TargetArtifact.Annotations, nil\n}\n'
+_UM_LOCAL = '\tuserMetadata := payload.TargetArtifact.Annotations\n\tif userMetadata == nil {\n\t\tuserMetadata = map[string]string{}\n\t}\n\treturn userMetadata, nil\n}\n'
+_UM_DEFAULT_FIRST = '\tuserMetadata := map[string]string{}\n\tif payload.TargetArtifact.Annotations != nil {\n\t\tuserMetadata = payload.TargetArtifact.Annotations\n\t}\n\treturn userMetadata, nil\n}\n'
+_UM_HELPER = '\treturn annotationsOrEmpty(payload.TargetArtifact.Annotations), nil\n}\n\nfunc annotationsOrEmpty(m map[string]string) map[string]string {\n\tif m == nil {\n\t\treturn map[string]string{}\n\t}\n\treturn m\n}\n'
+_UM_HELPER_P = '\treturn userMetadataOf(&payload), nil\n}\n\nfunc userMetadataOf(p *envelope.Payload) map[string]string {\n\tif m := p.TargetArtifact.Annotations; m != nil {\n\t\treturn m\n\t}\n\treturn map[string]string{}\n}\n'
+_VB = '\tif vo.EnvelopeContent == nil {\n\t\t// signature verification was skipped, there is no verified payload\n\t\treturn ocispec.Descriptor{}, vo, nil\n\t}\n\tvar payload envelope.Payload\n\tif err = json.Unmarshal(vo.EnvelopeContent.Payload.Content, &payload); err != nil {\n\t\treturn ocispec.Descriptor{}, nil, err\n\t}\n\treturn payload.TargetArtifact, vo, nil\n}\n'
+_VB_SINGLE = '\tvar desc ocispec.Descriptor\n\tif vo.EnvelopeContent != nil {\n\t\tvar payload envelope.Payload\n\t\tif err = json.Unmarshal(vo.EnvelopeContent.Payload.Content, &payload); err != nil {\n\t\t\treturn ocispec.Descriptor{}, nil, err\n\t\t}\n\t\tdesc = payload.TargetArtifact\n\t}\n\treturn desc, vo, nil\n}\n'
+_VB_HELPER = '\tdesc, err := signedDescriptor(vo)\n\tif err != nil {\n\t\treturn ocispec.Descriptor{}, nil, err\n\t}\n\treturn desc, vo, nil\n}\n\nfunc signedDescriptor(vo *VerificationOutcome) (ocispec.Descriptor, error) {\n\tif vo.EnvelopeContent == nil {\n\t\treturn ocispec.Descriptor{}, nil\n\t}\n\tvar payload envelope.Payload\n\tif err := json.Unmarshal(vo.EnvelopeContent.Payload.Content, &payload); err != nil {\n\t\treturn ocispec.Descriptor{}, err\n\t}\n\treturn payload.TargetArtifact, nil\n}\n'
+_RETURN_VARIANTS = [
+ dict(name='benign-usermetadata-local-defaulted', file=N, expect='silent', find=_UM, replace=_UM_LOCAL),
+ dict(name='benign-usermetadata-default-first', file=N, expect='silent', find=_UM, replace=_UM_DEFAULT_FIRST),
+ dict(name='benign-usermetadata-helper', file=N, expect='silent', find=_UM, replace=_UM_HELPER),
+ dict(name='benign-usermetadata-helper-takes-payload', file=N, expect='silent', find=_UM, replace=_UM_HELPER_P),
+ dict(name='usermetadata-local-test-inverted', file=N, expect='flagged(returns/UserMetadata)', find=_UM,
+      replace=_UM_LOCAL.replace('if userMetadata == nil', 'if userMetadata != nil')),
+ dict(name='usermetadata-default-first-test-inverted', file=N, expect='flagged(returns/UserMetadata)', find=_UM,
+      replace=_UM_DEFAULT_FIRST.replace('Annotations != nil', 'Annotations == nil')),
+ dict(name='usermetadata-default-first-never-overwritten', file=N, expect='flagged(returns/UserMetadata)', find=_UM,
+      replace=_UM_DEFAULT_FIRST.replace('\t\tuserMetadata = payload.TargetArtifact.Annotations\n', '\t\t_ = payload.TargetArtifact.Annotations\n')),
+ dict(name='usermetadata-helper-filters', file=N, expect='flagged(returns/UserMetadata)', find=_UM,
+      replace=_UM_HELPER.replace('\treturn m\n', '\tout := map[string]string{}\n\tfor k, v := range m {\n\t\tif !strings.HasPrefix(k, "io.cncf.notary") {\n\t\t\tout[k] = v\n\t\t}\n\t}\n\treturn out\n')),
+ dict(name='usermetadata-helper-empty-map-filled', file=N, expect='flagged(returns/UserMetadata)', find=_UM,
+      replace=_UM_HELPER.replace('\t\treturn map[string]string{}\n', '\t\tempty := map[string]string{}\n\t\tempty["io.cncf.notary.none"] = "true"\n\t\treturn empty\n')),
+ dict(name='usermetadata-helper-given-other-payload', file=N, expect='flagged(returns/UserMetadata)', find=_UM,
+      replace=_UM_HELPER_P.replace('userMetadataOf(&payload), nil', 'userMetadataOf(&envelope.Payload{}), nil')),
+ dict(name='usermetadata-empty-when-other-payload-has-none', file=N, expect='flagged(returns/UserMetadata)', find=_UM,
+      replace='\tvar other envelope.Payload\n\tif other.TargetArtifact.Annotations == nil {\n\t\treturn map[string]string{}, nil\n\t}\n\treturn payload.TargetArtifact.Annotations, nil\n}\n'),
+ dict(name='benign-verifyblob-single-exit', file=N, expect='silent', find=_VB, replace=_VB_SINGLE),
+ dict(name='benign-verifyblob-helper', file=N, expect='silent', find=_VB, replace=_VB_HELPER),
+ dict(name='verifyblob-single-exit-default-from-options', file=N, expect='flagged(returns/VerifyBlob)', find=_VB,
+      replace=_VB_SINGLE.replace('var desc ocispec.Descriptor\n', 'desc := ocispec.Descriptor{MediaType: verifyBlobOpts.ContentMediaType}\n')),
+ dict(name='verifyblob-helper-drops-annotations', file=N, expect='flagged(returns/VerifyBlob)', find=_VB,
+      replace=_VB_HELPER.replace('\treturn payload.TargetArtifact, nil\n', '\tsigned := payload.TargetArtifact\n\tsigned.Annotations = nil\n\treturn signed, nil\n')),
+ dict(name='verifyblob-helper-error-ignored', file=N, expect='flagged(returns/VerifyBlob)', find=_VB,
+      replace=_VB_HELPER.replace('\tdesc, err := signedDescriptor(vo)\n\tif err != nil {\n\t\treturn ocispec.Descriptor{}, nil, err\n\t}\n', '\tdesc, _ := signedDescriptor(vo)\n')),
+]
+
+# (7) CLASS "closure vs method vs state object, object built in place or by a constructor": no builder function at all
+_SB_CALL = '\tgetDescFunc := getDescriptorFunc(ctx, blobReader, signBlobOpts.ContentMediaType, signBlobOpts.UserMetadata)\n'
+_VB_CALL = '\tgetDescFunc := getDescriptorFunc(ctx, blobReader, verifyBlobOpts.ContentMediaType, verifyBlobOpts.UserMetadata)\n'
+_DESCRIBER = _GEN_METHOD[:_GEN_METHOD.index('func getDescriptorFunc(')]
+def _OBJ(o, mt='%s.ContentMediaType', um='\t\tuserMetadata:     %s.UserMetadata,\n', after=''):
+    return ('\tdescriber := &blobDescriber{\n\t\tctx:              ctx,\n\t\treader:           blobReader,\n\t\tcontentMediaType: ' + mt + ',\n' + um + '\t}\n' + after + '\tgetDescFunc := describer.describe\n').replace('%s', o)
+def _OBJECT(sign=None, verify=None, describer=_DESCRIBER):
+    return [(N, _GEN, describer), (N, _SB_CALL, sign or _OBJ('signBlobOpts')), (N, _VB_CALL, verify or _OBJ('verifyBlobOpts'))]
+_CTOR = 'func newBlobDescriber(ctx context.Context, reader io.Reader, contentMediaType string, userMetadata map[string]string) *blobDescriber {\n\treturn &blobDescriber{\n\t\tctx:              ctx,\n\t\treader:           reader,\n\t\tcontentMediaType: contentMediaType,\n\t\tuserMetadata:     userMetadata,\n\t}\n}\n'
+def _CTOR_CALL(o): return '\tgetDescFunc := newBlobDescriber(ctx, blobReader, %s.ContentMediaType, %s.UserMetadata).describe\n' % (o, o)
+_OBJECT_VARIANTS = [
+ dict(name='benign-generator-object-built-in-wrappers', expect='silent', edits=_OBJECT()),
+ dict(name='benign-generator-object-fields-assigned', expect='silent', edits=_OBJECT(
+      sign='\tdescriber := new(blobDescriber)\n\tdescriber.userMetadata = signBlobOpts.UserMetadata\n\tdescriber.contentMediaType = signBlobOpts.ContentMediaType\n\tdescriber.reader = blobReader\n\tdescriber.ctx = ctx\n\tgetDescFunc := describer.describe\n')),
+ dict(name='benign-generator-object-from-constructor', expect='silent', edits=_OBJECT(
+      sign=_CTOR_CALL('signBlobOpts'), verify=_CTOR_CALL('verifyBlobOpts'), describer=_DESCRIBER + _CTOR)),
+ dict(name='benign-generator-builder-params-reordered', expect='silent', edits=[
+      (N, 'func getDescriptorFunc(ctx context.Context, reader io.Reader, contentMediaType string, userMetadata map[string]string) BlobDescriptorGenerator {',
+          'func getDescriptorFunc(userMetadata map[string]string, contentMediaType string, reader io.Reader, ctx context.Context) BlobDescriptorGenerator {'),
+      (N, _SB_CALL, '\tgetDescFunc := getDescriptorFunc(signBlobOpts.UserMetadata, signBlobOpts.ContentMediaType, blobReader, ctx)\n'),
+      (N, _VB_CALL, '\tgetDescFunc := getDescriptorFunc(verifyBlobOpts.UserMetadata, verifyBlobOpts.ContentMediaType, blobReader, ctx)\n')]),
+ dict(name='generator-object-one-wrapper-lowercases', expect='flagged(blob-descriptor/same-inputs)', edits=_OBJECT(
+      sign=_OBJ('signBlobOpts', mt='strings.ToLower(%s.ContentMediaType)'))),
+ dict(name='generator-object-verify-omits-metadata', expect='flagged(blob-descriptor/same-inputs)', edits=_OBJECT(
+      verify=_OBJ('verifyBlobOpts', um=''))),
+ dict(name='generator-object-field-reassigned-in-wrapper', expect='flagged(blob-descriptor/)', edits=_OBJECT(
+      sign=_OBJ('signBlobOpts', after='\tdescriber.contentMediaType, _, _ = strings.Cut(describer.contentMediaType, ";")\n'))),
+ dict(name='generator-object-method-rewrites-field', expect='flagged(blob-descriptor/generator-body)', edits=_OBJECT(
+      describer=_DESCRIBER.replace('\tdigester := hashAlgo.Digester()\n', '\tdigester := hashAlgo.Digester()\n\tb.contentMediaType, _, _ = strings.Cut(b.contentMediaType, ";")\n'))),
+ dict(name='generator-object-method-overwrites-receiver', expect='flagged(blob-descriptor/generator-body)', edits=_OBJECT(
+      describer=_DESCRIBER.replace('\tdigester := hashAlgo.Digester()\n', '\tdigester := hashAlgo.Digester()\n\t*b = blobDescriber{ctx: b.ctx, reader: b.reader, contentMediaType: "application/octet-stream", userMetadata: b.userMetadata}\n'))),
+ dict(name='generator-object-fixed-algorithm', expect='flagged(blob-descriptor/generator-algorithm)', edits=_OBJECT(
+      describer=_DESCRIBER.replace('hashAlgo.Digester()', 'digest.SHA256.Digester()'))),
+ dict(name='generator-object-escapes-to-mutator', expect='flagged(blob-descriptor/generator-body)', edits=_OBJECT(
+      sign=_OBJ('signBlobOpts', after='\tnormaliseDescriber(describer)\n'),
+      describer=_DESCRIBER + 'func normaliseDescriber(b *blobDescriber) {\n\tb.reader = io.LimitReader(b.reader, 1<<20)\n}\n\n')),
+ dict(name='generator-object-verify-binds-other-method', expect='flagged(blob-descriptor/same-builder)', edits=_OBJECT(
+      verify=_OBJ('verifyBlobOpts').replace('describer.describe\n', 'describer.describeUntyped\n'),
+      describer=_DESCRIBER + 'func (b *blobDescriber) describeUntyped(hashAlgo digest.Algorithm) (ocispec.Descriptor, error) {\n\tdesc, err := b.describe(hashAlgo)\n\tdesc.MediaType = ""\n\treturn desc, err\n}\n\n')),
+ dict(name='generator-constructor-alters-media-type', expect='flagged(blob-descriptor/)', edits=_OBJECT(
+      sign=_CTOR_CALL('signBlobOpts'), verify=_CTOR_CALL('verifyBlobOpts'),
+      describer=_DESCRIBER + _CTOR.replace('contentMediaType: contentMediaType,', 'contentMediaType: strings.ToLower(contentMediaType),'))),
+ dict(name='generator-constructor-one-wrapper-passes-other-media-type', expect='flagged(blob-descriptor/same-inputs)', edits=_OBJECT(
+      sign=_CTOR_CALL('signBlobOpts').replace('signBlobOpts.ContentMediaType', 'strings.TrimSpace(signBlobOpts.ContentMediaType)'), verify=_CTOR_CALL('verifyBlobOpts'),
+      describer=_DESCRIBER + _CTOR)),
+ dict(name='generator-wrapper-hands-on-a-wrapping-literal', expect='flagged(blob-descriptor/same-builder)', edits=[
+      (N, _SB_CALL, '\tgenDesc := getDescriptorFunc(ctx, blobReader, signBlobOpts.ContentMediaType, signBlobOpts.UserMetadata)\n\tgetDescFunc := func(hashAlgo digest.Algorithm) (ocispec.Descriptor, error) {\n\t\tdesc, err := genDesc(hashAlgo)\n\t\tdesc.MediaType, _, _ = strings.Cut(desc.MediaType, ";")\n\t\treturn desc, err\n\t}\n')]),
+]
+
 VARIANTS = [
  dict(name='F11-reintroduced', file=N, expect='flagged(reader/)',
       find='''	var payload envelope.Payload
@@ -223,4 +397,7 @@ VARIANTS = [
       replace=_GEN_METHOD.replace('\treturn describer.describe\n', '\t_ = describer.describe\n\treturn func(digest.Algorithm) (ocispec.Descriptor, error) { return ocispec.Descriptor{MediaType: contentMediaType}, nil }\n')),
  dict(name='generator-method-size-of-other-reader', file=N, expect='flagged(blob-descriptor/generator-body)', find=_GEN,
       replace=_GEN_METHOD.replace('io.Copy(digester.Hash(), b.reader)', 'io.Copy(digester.Hash(), io.LimitReader(b.reader, 1<<20))')),
-]
+ # ======== second pass: classes of rewrites rather than single shapes ========
+ # (5) CLASS "value computed by a module helper / parameter narrowed or widened": the expiry is the result of a helper that is
+ #     handed the signing time and the duration (or the options, or the request), or a helper stores it into the request
+] + _EXPIRY_VARIANTS + _RETURN_VARIANTS + _OBJECT_VARIANTS + _CTOR_VARIANTS
